@@ -27,7 +27,9 @@ ASSUMPTIONS = [
 
 UNIVERSE = [1, 2, 3]
 SUBSETS = [[x for b, x in enumerate(UNIVERSE) if m >> b & 1] for m in range(8)]
-SPECIAL_LABELS = ['plain', 'with blank', 'co:lon', '(paren)', "quo'te", 'semi;colon', 'comma,x', 'ünï']
+SPECIAL_LABELS = ['plain', 'with blank', 'co:lon', '(paren)', "quo'te", 'semi;colon', 'comma,x', 'ünï',
+                  # stored IDs that look like paths / file names (a signature file's IDs are labels as they are, not file names to be stripped)
+                  'refseq/GCF_000005845', 'genbank/GCF_000005845', 'isolate_7.fa', 'run12/contigs.fasta.gz', 'asm.fna', 'reads.gz', 'a.b/c.fasta/x']
 
 
 def plan(tier, seed):
@@ -209,7 +211,7 @@ def t_multisets(nmax, shard, nshards):
 				for oi, order in enumerate(orders):
 					if oi and order == base:
 						continue
-					labels = [f'L{i}' for i in range(n)] if ci % 7 else [SPECIAL_LABELS[i % len(SPECIAL_LABELS)] + (str(i) if i >= len(SPECIAL_LABELS) else '') for i in range(n)]
+					labels = [f'L{i}' for i in range(n)] if ci % 7 else [SPECIAL_LABELS[(ci // 7 + i) % len(SPECIAL_LABELS)] + (str(i) if i >= len(SPECIAL_LABELS) else '') for i in range(n)]
 					sets = [SUBSETS[m] for m in order]
 					case = dict(sets=sets, labels=labels, channel='sigfile')
 					code, stdout, exc, arrs = run_tree_sig(d, labels, sets)
